@@ -361,3 +361,76 @@ package composite
 //@   assert [C12:automatic-xr-restricted-by-its-revision-selector] AUTOSEL(cr) ==> forall k:Str :: k in cr.GetCompositionRevisionSelector().MatchLabels && k != "crossplane.io/composition-name"
 //@        ==> k in as($opts[0], client.MatchingLabels) && as($opts[0], client.MatchingLabels)[k] == cr.GetCompositionRevisionSelector().MatchLabels[k]
 //@   assert [C12:no-other-restriction] forall k:Str :: k in as($opts[0], client.MatchingLabels) ==> k == "crossplane.io/composition-name" || (AUTOSEL(cr) && k in cr.GetCompositionRevisionSelector().MatchLabels)
+
+// ---------------------------------------------------------------------------------------------
+// Function pipeline composer (C01, C03, C04).
+//
+// C03: nothing is written - no garbage collection, no resourceRefs patch, no composed resource
+//      patch, no status patch - unless observing the composed resources succeeded, every pipeline
+//      step ran without error and no result of fatal severity was seen.
+// C01: the resource references (built from exactly the final desired resources) are persisted
+//      successfully, after garbage collection, before the first composed resource is applied; a
+//      desired resource that corresponds to an observed one keeps that resource's name and
+//      namespace, and a name is generated only for a resource that has none.
+// C04: every step is sent to the function it names with the same observed state, the desired
+//      state and context returned by the previous step (for the first: the initial empty ones
+//      built here), and the final desired resources are read from the last step's output.
+//
+//@ func (*composite.FunctionComposer).Compose
+//@ props C01 C03 C04
+//@ requires c != nil && xr != nil
+//@ ghost observedOK bool = false
+//@ ghost pipelineOK bool = true
+//@ ghost sawFatal bool = false
+//@ ghost gcDone bool = false
+//@ ghost refsPersisted bool = false
+//@ ghost steps int = 0
+//@ let $observed = result (composite.ComposedResourceObserver).ObserveComposedResources
+//@ let $o = result composite.AsState
+//@ let $prevRsp = result (composite.FunctionRunner).RunFunction
+//@ site (composite.ComposedResourceObserver).ObserveComposedResources(_, _, $x)
+//@   assert [C04:observes-this-xr] $x == xr
+//@   update observedOK = err == nil
+//@ site composite.AsState($x, $conns, $rs)
+//@   assert [C04:observed-state-is-the-xr-and-its-observed-resources] $x == xr && $rs == $observed
+//@ site (composite.FunctionRunner).RunFunction(_, _, $name, $req)
+//@   assert [C04:step-sent-to-the-function-it-names] $name == fn.FunctionRef.Name
+//@   assert [C04:every-step-sees-the-same-observed-state] $req != nil && $req.Observed == $o
+//@   assert [C04:desired-and-context-come-from-the-previous-step] steps > 0 ==> (($prevRsp != nil ==> $req.Desired == $prevRsp.Desired && $req.Context == $prevRsp.Context) && ($prevRsp == nil ==> $req.Desired == nil && $req.Context == nil))
+//@   assert [C03:no-step-after-a-failed-or-fatal-one] observedOK && pipelineOK && !sawFatal
+//@   update pipelineOK = pipelineOK && err == nil
+//@   update steps = steps + 1
+//@ site (*v1.Result).GetSeverity($r)
+//@   update sawFatal = sawFatal || result == fnv1.Severity_SEVERITY_FATAL
+//@ loop range req.Revision.Spec.Pipeline
+//@   invariant [C03:pipeline-healthy-so-far] observedOK && pipelineOK && !sawFatal && !gcDone && !refsPersisted
+//@   invariant [C04:state-threaded-through] steps > 0 ==> (($prevRsp != nil ==> d == $prevRsp.Desired && fctx == $prevRsp.Context) && ($prevRsp == nil ==> d == nil && fctx == nil))
+//@ loop range rsp.GetResults()
+//@   invariant [C03:no-fatal-result-so-far] observedOK && pipelineOK && !sawFatal && !gcDone && !refsPersisted
+//@ loop range d.GetResources()
+//@   invariant [C03:still-nothing-written-while-loading-desired] observedOK && pipelineOK && !sawFatal && !gcDone && !refsPersisted
+//@   invariant [C01:aux-desired-resources-exist-before-the-reference-holder] forall k:Str :: k in desired ==> live(desired[k].Resource)
+//@ loop range observed
+//@   invariant [C01:references-stay-persisted-while-upgrading] refsPersisted && gcDone && observedOK && pipelineOK && !sawFatal
+//@ loop range desired
+//@   invariant [C01:references-stay-persisted-while-applying] refsPersisted && gcDone && observedOK && pipelineOK && !sawFatal
+//@ site (composite.ComposedResourceGarbageCollector).GarbageCollectComposedResources(_, _, $owner, $obs, $des)
+//@   assert [C03:garbage-collection-only-after-a-clean-pipeline] observedOK && pipelineOK && !sawFatal
+//@   assert [C03:garbage-collection-compares-observed-with-final-desired] $owner == xr && $obs == $observed && $des == desired
+//@   update gcDone = err == nil
+//@ site composite.UpdateResourceRefs($x, $des)
+//@   assert [C01:references-built-from-the-final-desired-resources] $x == refs && $des == desired
+//@ site (client.Writer).Patch(_, _, $obj, $patch, $opts...) as persist-refs
+//@   where $obj == refs
+//@   assert [C01,C03:references-persisted-after-garbage-collection] gcDone && observedOK && pipelineOK && !sawFatal
+//@   update refsPersisted = err == nil
+//@ site (client.Writer).Patch(_, _, $obj, $patch, $opts...) as apply-composed
+//@   where $obj != refs
+//@   assert [C01:references-persisted-before-any-composed-resource-is-applied] refsPersisted && gcDone
+//@   assert [C03:apply-only-after-a-clean-pipeline] observedOK && pipelineOK && !sawFatal
+//@ site (client.SubResourceWriter).Patch(_, _, $obj, $patch, $opts...)
+//@   assert [C03:status-only-after-a-clean-pipeline] observedOK && pipelineOK && !sawFatal && refsPersisted
+//@ site (*v1.State).GetResources($s)
+//@   assert [C04:final-desired-state-is-the-last-steps-output] steps > 0 ==> (($prevRsp != nil ==> $s == $prevRsp.Desired) && ($prevRsp == nil ==> $s == nil))
+//@ site (names.NameGenerator).GenerateName(_, _, $cd)
+//@   assert [C01:name-generated-only-for-a-resource-without-one] $cd.GetName() == ""
